@@ -107,9 +107,10 @@ Definition rd_byte (d : dstate) : Z * dstate :=   (* readByte: unsigned *)
   let '(b, ok, d1) := rd 1 d in
   ((if ok then be b else 0), d1).
 
-(* decoder.read(n): make([]byte, n) then ReadFull; the bytes read so far are kept *)
+(* decoder.read(n): make([]byte, min(n, remain)) then ReadFull; the bytes read so far are kept;
+   a read longer than the rest of the message fails at the end of the message (as rd does) *)
 Definition rd_alloc (n : Z) (d : dstate) : bytes * dstate :=
-  let '(b, _, d1) := rd n (charge n d) in (b, d1).
+  let '(b, _, d1) := rd n (charge (Z.min n (remain d)) d) in (b, d1).
 
 Definition rd_string (d : dstate) : bytes * dstate :=
   let '(n, d1) := rd_int 2 d in
@@ -156,17 +157,17 @@ Fixpoint gosize (t : ty) : Z :=
   | TUnsupported | TTags => 8
   end.
 
-(* decodeArray's loop: for i := 0; i < n && d.remain > 0; i++ { decodeElem(d, a.index(i)) };
-   the elements that are not reached keep their zero value *)
-Fixpoint arr_loop (dec : dstate -> res (kv * dstate)) (z : kv) (n : nat) (d : dstate)
+(* decodeElements (repaired decodeArray): for i < n && d.remain > 0 && d.err == nil
+   { decodeElem(d, a.index(i)); i++ }; the array keeps the i decoded elements *)
+Fixpoint arr_loop (dec : dstate -> res (kv * dstate)) (n : nat) (d : dstate)
   : res (list kv * dstate) :=
   match n with
   | O => Ok ([], d)
   | S n' =>
-    if remain d <=? 0 then Ok (repeat z n, d)
+    if (remain d <=? 0) || (match derr d with Some _ => true | None => false end) then Ok ([], d)
     else
       let* (v, d1) := dec (tick d) in
-      let* (vs, d2) := arr_loop dec z n' d1 in
+      let* (vs, d2) := arr_loop dec n' d1 in
       Ok (v :: vs, d2)
   end.
 
@@ -221,7 +222,9 @@ Fixpoint decode (t : ty) (d : dstate) {struct t} : res (kv * dstate) :=
     let '(n, d1) := rd_int 4 d in
     if (n <? 0) || (65535 <? n) then Ok (KArr [], d1)
     else
-      let* (vs, d2) := arr_loop (decode e) (zero e) (Z.to_nat n) (charge (n * gosize e) d1) in
+      (* no more elements are allocated than the message still holds bytes *)
+      let m := Z.min n (Z.max 0 (remain d1)) in
+      let* (vs, d2) := arr_loop (decode e) (Z.to_nat m) (charge (m * gosize e) d1) in
       Ok (KArr vs, d2)
   | TStruct fs =>
     let* (vs, d1) :=
